@@ -35,3 +35,13 @@ Corollary src_hom_rate_range n g f gs tau :
   square_sym n g -> (forall k, (k < n * n)%nat -> gs k = transpose_arr n f k) -> 0 < jsi_norm ROps (n * n) f ->
   0 <= src_hom_rate g f gs tau None <= 1.
 Proof. intros Hg Hgs Hn. rewrite src_hom_rate_eq. apply (hom_rate_range n g f gs tau Hg Hgs Hn). Qed.
+
+(* ---- the setup-level wrappers (spdc_obj.rs SPDC::hom_rate_series, hom.rs hom_visibility, joint_spectrum.rs jsa_range) *)
+Lemma src_jsa_range_eq J g : src_jsa_range J g = tabulate J g.
+Proof. reflexivity. Qed.
+
+Theorem src_setup_hom_rate_series_eq J g taus : src_setup_hom_rate_series J g taus = setup_hom_rate_series J g taus.
+Proof. unfold src_setup_hom_rate_series. cbv zeta. rewrite src_hom_rate_series_eq. reflexivity. Qed.
+
+Theorem src_hom_visibility_eq J g dt : src_hom_visibility J g dt = setup_hom_visibility J g dt.
+Proof. unfold src_hom_visibility. cbv zeta. rewrite src_hom_rate_eq. reflexivity. Qed.
